@@ -1231,4 +1231,17 @@ theorem c17_shape_Context_NewPeerSetID_c17 :
      "return:network.NewPeerSetID(h.Sum(nil))"] := rfl
 
 
+theorem c17_shape_router_Router_receiveServerIdentity_b7d :
+    Shapes.network_router_Router_receiveServerIdentity_b7d =
+   ["c.Receive", "assign:nm,err:=c.Receive()", "if:(err!=nil)",
+     "return:nil,xerrors.Errorf(\"\",err)", "if:(nm.MsgType!=ServerIdentityType)",
+     "return:nil,xerrors.Errorf(\"\",nm.MsgType.String())",
+     "assign:dst:=nm.Msg.(ServerIdentity)", "assign:tcpConn,ok:=c.(TCPConn)", "if:ok",
+     "assign:tlsConn,ok:=tcpConn.conn.(tls.Conn)", "if:ok", "tlsConn.ConnectionState",
+     "assign:cs:=tlsConn.ConnectionState()", "if:(len(cs.PeerCertificates)==0)",
+     "return:nil,xerrors.New(\"\")", "pubFromCN",
+     "assign:pub,err:=pubFromCN(tcpConn.suite,cs.PeerCertificates[0].Subject.CommonName)",
+     "if:(err!=nil)", "return:nil,xerrors.Errorf(\"\",err)", "if:!pub.Equal(dst.Public)",
+     "return:nil,xerrors.New(\"\")", "else", "if:!r.UnauthOk", "return:dst,nil"] := rfl
+
 end C17
